@@ -22,3 +22,13 @@ def listed(prop):
 
 def match(prop, res, case):
     return [k for k in listed(prop) if k in PRED and PRED[k](res, case)]
+
+
+def match_elsewhere(prop, res, case):
+    """keys of findings listed under OTHER properties whose predicate matches: the discrepancy belongs to that property's check
+    (which prints the KNOWN-FINDING line); the caller excludes the case only if the quirk reproduces the observed state exactly"""
+    global _LISTED
+    if _LISTED is None:
+        _LISTED = load_known()
+    mine = set(listed(prop))
+    return sorted({k for (p, k) in _LISTED if p != prop and k not in mine and k in PRED and PRED[k](res, case)})
